@@ -1,7 +1,10 @@
 #!/bin/bash
-# setup_cmd: warm the build cache and build the checker, offline, from files on disk only.
+# setup_cmd: warm the build cache and build the checkers, offline, from files on disk only.
 cd "$(dirname "$0")"
 export GOFLAGS=-mod=mod GOPROXY=off GOSUMDB=off GOTOOLCHAIN=local GOCACHE=/verif/.gocache
-mkdir -p bin evidence
+mkdir -p bin evidence replays
+go run ./cmd/mkbind bind/zz_bind.go github.com/go-fed/activity/streams \
+   /repo/astool/activitystreams.jsonld /repo/astool/security-v1.jsonld /repo/astool/toot.jsonld /repo/astool/forgefed.jsonld || exit 1
 go build -trimpath -o bin/verif ./cmd/verif || exit 1
+go build -trimpath -o bin/verifs ./cmd/verifs || exit 1
 echo setup-ok
